@@ -1,7 +1,60 @@
-(* placeholder until the codec theorems land *)
+(* C07 - sessions are fresh and isolated under adversarial message routing.
+   PROVED so far (this file): the pairwise facts the matched-conversation argument is made of -
+   (a) a pending server session accepts exactly one finalization, the HMAC over ITS transcript under ITS key;
+   (b) the transcript determines the request, the response without MAC, the server nonce and ephemeral key,
+       the context and both identities (so two sessions with equal transcripts have exchanged the same
+       request and response);
+   (c) within a matched session both sides derive the same key and the client's finalization is the one
+       the server expects;
+   (d) every session draws its nonces and ephemeral seeds from its own, disjoint range of the tape.
+   NOT YET PROVED: the inductive invariant over arbitrary histories (DESIGN.md C07); the history-level
+   statement is decided by the exhaustive routing battery with the matched-conversation oracle and the
+   cross-check of every finish step against the model. *)
 From Coq Require Import List.
-From OKE Require Import BytesLemmas.
-Theorem C07_placeholder : forall l x y px py r1 r2,
-  Bytes.lenprefix l x = Some px -> Bytes.lenprefix l y = Some py -> px ++ r1 = py ++ r2 -> x = y /\ r1 = r2.
-Proof. exact lenprefix_inj. Qed.
-Print Assumptions C07_placeholder.
+From OKE Require Import Bytes Suite Generated Voprf Messages Envelope TripleDH Opaque Laws Layers Transcript Accept TapeLayout.
+
+Theorem C07_one_finalization_per_session :
+  forall E Sc Pk Sk (CS : Suite E Sc Pk Sk) st m k,
+    server_login_finish CS st m = Ok k <->
+    cf_mac m = h_hmac (hash CS) (sl_km3 st) (sl_hashed_transcript st) /\ k = sl_session_key st.
+Proof. exact @server_finish_accept_iff. Qed.
+Print Assumptions C07_one_finalization_per_session.
+
+Theorem C07_transcript_determines_conversation :
+  forall context iu req is_ l2 n e context' iu' req' is_' l2' n' e' u s u' s' p,
+    lenprefix 2 iu = Some u -> lenprefix 2 is_ = Some s ->
+    lenprefix 2 iu' = Some u' -> lenprefix 2 is_' = Some s' ->
+    length req = length req' -> length l2 = length l2' -> length n = length n' ->
+    preamble context u req s l2 n e = Ok p ->
+    preamble context' u' req' s' l2' n' e' = Ok p ->
+    context = context' /\ iu = iu' /\ req = req' /\ is_ = is_' /\ l2 = l2' /\ n = n' /\ e = e'.
+Proof. exact preamble_injective. Qed.
+Print Assumptions C07_transcript_determines_conversation.
+
+Theorem C07_matched_session_agrees :
+  forall E Sc Pk Sk (CS : Suite E Sc Pk Sk), GroupLaws CS ->
+  forall tape req l2 cnonce ce cs ss u s ctx st ke2 rest dbg,
+    vk CS ce -> vk CS cs -> vk CS ss ->
+    generate_ke2 CS (private_key_ops (ke CS)) tape req l2
+                 {| k1_nonce := cnonce; k1_client_e_pk := k_pub (ke CS) ce |} (k_pub (ke CS) cs) ss u s ctx
+      = Ok (st, ke2, rest, dbg) ->
+    exists dbg',
+      generate_ke3 CS l2 ke2 {| k1s_client_e_sk := ce; k1s_nonce := cnonce |} req (k_pub (ke CS) ss) cs u s ctx
+        = Ok (sl_session_key st, {| cf_mac := h_hmac (hash CS) (sl_km3 st) (sl_hashed_transcript st) |}, dbg') /\
+      server_login_finish CS st {| cf_mac := h_hmac (hash CS) (sl_km3 st) (sl_hashed_transcript st) |}
+        = Ok (sl_session_key st).
+Proof. exact @ke_agreement. Qed.
+Print Assumptions C07_matched_session_agrees.
+
+Theorem C07_session_randomness_from_own_tape_range :
+  forall E Sc Pk Sk (CS : Suite E Sc Pk Sk) S (SK : SkOps Pk S) tape setup file rq cred ctx ids st resp rest dbg,
+    server_login_start CS SK tape setup file rq cred ctx ids = Ok (st, resp, rest, dbg) ->
+    exists fmk eseed,
+      tape = fmk ++ cr_masking_nonce resp ++ eseed ++ k2_nonce (cr_ke2 resp) ++ rest /\
+      length fmk = (match file with Some _ => 0 | None => h_len (hash CS) end) /\
+      length (cr_masking_nonce resp) = KE_NONCE_LEN /\ length eseed = k_Nsk (ke CS) /\
+      length (k2_nonce (cr_ke2 resp)) = KE_NONCE_LEN /\
+      (exists esk, k_derive (ke CS) (hash CS) (o_id (oprf CS)) eseed = Some esk /\
+                   k2_server_e_pk (cr_ke2 resp) = k_pub (ke CS) esk).
+Proof. exact @server_login_start_layout. Qed.
+Print Assumptions C07_session_randomness_from_own_tape_range.
